@@ -35,7 +35,7 @@ def run(ctx):
     tp, out = ctx.godriver("c03", "^TestC05$", cases=cp, timeout=2400)
     recs = vlib.read_ndjson(tp)
     ctx.log("driver: %d cases, %d datagrams judged, reactions %s" % (
-        len(cases), len(recs), {k: sum(1 for x in recs if x["got"] == k) for k in ("ok", "skip", "error", "ignored")}))
+        len(cases), len(recs), {k: sum(1 for x in recs if x["got"] == k) for k in ("ok", "skip", "error", "ignored", "panic")}))
     ok, l, inv, tout = ctx.validate("NtpAcceptTrace", "NtpAcceptTrace_mon.cfg", tp)
     nval = len(cases)
     if not ok:
@@ -48,7 +48,9 @@ def run(ctx):
     else:
         ok, l, inv, tout = ctx.validate("NtpAcceptTrace", "NtpAcceptTrace_strict.cfg", tp)
         if not ok:
-            ctx.drift.append("reaction differs from NtpAccept.tla: %s" % (recs[l - 1] if l else "?"))
+            ctx.drift.append("%s: %s" % ({"SReaction": "reaction differs from NtpAccept.tla",
+                                          "SLog": "the client's log records tell another reaction than the observation"}.get(inv, inv),
+                                         recs[l - 1] if l else "?"))
     # the NTS clause on the wire: real NTS client, NTS-KE and NTP servers, crafted
     # responses per NTS deviation class (spec: NtpAccept.tla with Nts = TRUE)
     import c05nts_part
@@ -67,4 +69,10 @@ def run(ctx):
     ctx.assumptions += ["IP and SCION clients (same-AS empty path, no SPAO: see C13); the NTS clause is replayed on the "
                         "wire for the IP client (real NTS-KE and NTP servers behind a proxy), not for the SCION client",
                         "a datagram from the server's address and another port counts as 'from the queried server' "
-                        "(the code compares addresses; the statement names no port)"]
+                        "(the code compares addresses; the statement names no port)",
+                        "what the client did with a datagram is decided without its log: ok = the measurement call returned a "
+                        "measurement time-stamped within the delivery window of this datagram, or the client's pass-through filter "
+                        "was called (half of the clients have one), or its interleaved state (hook VerifPrev) took a receive time "
+                        "within that window; error = the attempt ended otherwise (call returned / next request on the wire); skip = "
+                        "the datagram was read (/proc/net/udp), the socket is still there and the call's goroutines are parked "
+                        "again; log records with today's names are compared in strict mode only, when present"]
